@@ -22,7 +22,7 @@ from ..paths import Path, PathEnumerator, find_calls
 from ..report import Report
 from ..sym import (FALSE, NONE, TRUE, Evaluator, Frame, Term, Unsupported, atoms_of, bool_value, const, lin, number, show, subst, subterms, sym,
                    t_and, t_cmp, t_not, t_or)
-from .common import is_call_of, loop_of, norm_stmt
+from .common import call_args, is_call_of, loop_of, norm_stmt
 from .c16_domain import Misaligned, N, first_edge, involved, read_domain
 
 ORDER = {"LOW": 0, "MID": 1, "HIGH": 2}
@@ -45,6 +45,64 @@ def check(model: Model, rep: Report, tier: str):
         q9(model, rep)
     with rep.isolated():
         q8(model, rep)
+    with rep.isolated():
+        q10(model, rep)
+
+
+def q10(model: Model, rep: Report):
+    """The parking report of a step asks get_requires_parking about the WHOLE step."""
+    rep.rule("C16.Q10", "OperationSequence.get_required_parkings: for every step, get_requires_parking is asked with the identifiers of ALL gates of that step (the guard "
+                        "'takes part in no active gate' ranges over the step, not over one gate at a time) and for qubits of the device listing")
+    from .common import devar
+    K = model.cls("OperationSequence")
+    f = K.resolve("get_required_parkings")
+    if f is None:
+        raise AnalysisError("OperationSequence.get_required_parkings vanished")
+    pe = PathEnumerator(Evaluator(model, inline_methods=False))
+    ps = pe.function_paths(f, self_cls=K)
+    s = sym(f.self_name)
+    calls = []   # (call term, stack of loop elems, path)
+
+    def walk(p, stack):
+        for e in p.events:
+            if e.term is not None and e.kind in ("assign", "effect", "branch"):
+                for c in find_calls(e.term, "get_requires_parking"):
+                    calls.append((c, list(stack), p))
+            if e.kind == "loop" and e.term is not None:
+                el = ("bound", "for", e.node.lineno, show(e.term))
+                for bp in e.extra["paths"]:
+                    walk(bp, stack + [(el, e.term)])
+        for c in find_calls(p.cond, "get_requires_parking"):
+            calls.append((c, list(stack), p))
+    for p in ps:
+        walk(p, [])
+    seen = set()
+    n = 0
+    for c, stack, p in calls:
+        a, kw = call_args(c)
+        edge = dict(kw).get("edge_ids", a[1] if len(a) > 1 else None)
+        key = (repr(edge), tuple(repr(x[0]) for x in stack))
+        if edge is None or key in seen:
+            continue
+        seen.add(key)
+        n += 1
+        if not stack:
+            raise AnalysisError("get_required_parkings: get_requires_parking is asked outside the loop over the steps (shape not recognised)")
+        step, step_dom = stack[0]
+        dom_ok = step_dom in (("attr", s, "gate_operations"),) or (devar(step_dom)[0] == "attr" and devar(step_dom)[2] == "gate_operations")
+        ed = devar(edge)
+        inner = [b for b, _ in stack[1:] if subterms(ed, lambda y, b=b: y == b)]
+        whole = ed[0] == "comp" and len(ed[3]) == 1 and not ed[3][0][1] and ed[3][0][0] == step and ed[2][0] == "attr" and ed[2][2] == "identifier" and ed[2][1][0] == "bound"
+        if inner:
+            rep.fail("C16.Q10", "OperationSequence.get_required_parkings[whole step]", f.loc, found=f"edge_ids = {show(ed)[:120]} (built from one element of an inner loop)",
+                     required="[operation.identifier for operation in <the step>]",
+                     what="the question is asked per gate: a qubit that takes part in another gate of the same step is not excluded and is reported as requiring parking "
+                          "(parked and gated at once), or demands of different gates are not combined", detail="whole-step")
+        elif whole and dom_ok:
+            rep.ok("C16.Q10", "OperationSequence.get_required_parkings[whole step]", f.loc, found=f"edge_ids = {show(ed)[:120]}", required="identifiers of all gates of the step")
+        else:
+            raise AnalysisError(f"get_required_parkings: edge set {show(ed)[:160]} over {show(step_dom)} not recognised as the identifiers of the whole step")
+    rep.floor("get_requires_parking questions in get_required_parkings", n, 1)
 
 
 def q1(model: Model, rep: Report):
